@@ -54,6 +54,9 @@ public:
         if (d.continuation()) {
             if (d.isContextAlive()) {
                 d.invokeContinuation(&value);
+            } else {
+                // the continuation can never run anymore, release it (it might own a copy of the task)
+                d.setContinuation({});
             }
         } else {
             d.setResult(new U(std::move(value)));
@@ -70,6 +73,9 @@ public:
             if (d.isContextAlive()) {
                 T convertedValue { std::move(value) };
                 d.invokeContinuation(&convertedValue);
+            } else {
+                // the continuation can never run anymore, release it (it might own a copy of the task)
+                d.setContinuation({});
             }
         } else {
             d.setResult(new T(std::move(value)));
@@ -84,6 +90,9 @@ public:
         if (d.continuation()) {
             if (d.isContextAlive()) {
                 d.invokeContinuation(nullptr);
+            } else {
+                // the continuation can never run anymore, release it (it might own a copy of the task)
+                d.setContinuation({});
             }
         }
     }
